@@ -37,8 +37,12 @@ def gen_world(tape, tier):
         acc_start = pos - int(rng.integers(10_000, 160_000))
         n_seg = int(rng.integers(1, 4))
         bps = sorted(set(int(x) for x in rng.integers(1, n, size=n_seg - 1))) if n > 2 else []
-        level_choices = [-1.0, -0.5, 0.0, 0.0, 0.4, 0.58, 1.0]
+        level_choices = [-1.0, -0.5, 0.0, 0.0, 0.4, 0.58, 1.0, -3.0, 1.7]
         levels = [float(rng.choice(level_choices)) for _ in range(len(bps) + 1)]
+        if len(levels) == 3 and rng.random() < 0.35:
+            # high-level amplification / deep deletion on both sides of a neutral stretch
+            x = float(rng.choice([1.7, -3.0, 2.3]))
+            levels = [x, 0.0, x]
         seg_id = 0
         seg_start = None
         i = 0
@@ -176,14 +180,56 @@ def gen_world(tape, tier):
     cns_stats["ci_hi"] = cns["log2"].to_numpy() + half * rng.uniform(0.5, 1.5, size=len(cns))
     cns_stats["sem"] = rng.uniform(0.01, 0.4, size=len(cns))
     meta = {"sample_id": "S1"}
+    baits_df = frame(bait_rows, ["chromosome", "start", "end", "gene"])
+    if rng.random() < 0.5:
+        # a strand per gene; overlapping/abutting baits of different genes then mix strands
+        st = {g: ("+" if rng.random() < 0.5 else "-") for g in dict.fromkeys(baits_df["gene"])}
+        baits_df["strand"] = [st[g] for g in baits_df["gene"]]
+    # a ratio table on which no segmentation filter can fire (no null bins, no zero weights,
+    # no outliers): the only case in which the filtered table could alias the caller's
+    cnr_clean = cnr.copy()
+    cl2 = lvl + rng.normal(0, 0.05, size=n_u)
+    cnr_clean["log2"] = cl2
+    cnr_clean["depth"] = np.exp2(cl2) * np.where(is_t, 100.0, 3.0)
+    cnr_clean["weight"] = rng.uniform(0.5, 1.0, size=n_u)
+    # heterozygous / homozygous SNVs (and a few indels) over the targeted bins, tumour
+    # frequencies shifted where the truth has a copy-number change; optional paired normal
+    from cnvlib.vary import VariantArray as VA
+    v_rows = []
+    paired = bool(rng.random() < 0.5)
+    dense = bool(rng.random() < 0.3)  # > 50 variants in a segment: the re-segmentation path
+    for (chrom, start, end, _g, level) in t_rows:
+        k = int(rng.integers(0, 3)) if not dense else int(rng.integers(2, 7))
+        for pos_v in sorted(set(int(x) for x in rng.integers(start, max(start + 1, end), size=k))):
+            zyg = float(rng.choice([0.5, 0.5, 0.5, 1.0, 0.0]))
+            depth = int(rng.integers(8, 200))
+            shift = 0.0 if zyg != 0.5 else 0.18 * np.tanh(level) * (1 if rng.random() < 0.5 else -1)
+            f = min(1.0, max(0.0, (zyg if zyg != 0.5 else 0.5 + shift) + float(rng.normal(0, 0.04))))
+            ac = int(round(f * depth))
+            refb, altb = ("A", "G") if rng.random() < 0.9 else ("AT", "A")
+            row = [chrom, pos_v, pos_v + len(refb), refb, altb, bool(rng.random() < 0.05), zyg,
+                   float(depth), float(ac), ac / depth]
+            if paired:
+                nd = int(rng.integers(8, 120))
+                nf = min(1.0, max(0.0, zyg + float(rng.normal(0, 0.03))))
+                row += [zyg, float(nd), float(round(nf * nd)), round(nf * nd) / nd]
+            v_rows.append(tuple(row))
+    v_cols = ["chromosome", "start", "end", "ref", "alt", "somatic", "zygosity", "depth", "alt_count",
+              "alt_freq"] + (["n_zygosity", "n_depth", "n_alt_count", "n_alt_freq"] if paired else [])
+    if v_rows:
+        vdf = frame(v_rows, v_cols)
+    else:
+        vdf = frame([(names[0], 1000, 1001, "A", "G", False, 0.5, 30.0, 15.0, 0.5)], v_cols[:10])
     world = {
-        "baits": GA(frame(bait_rows, ["chromosome", "start", "end", "gene"]), {"sample_id": "baits"}),
+        "varr": VA(vdf, {"sample_id": "S1"}),
+        "baits": GA(baits_df, {"sample_id": "baits"}),
         "access": GA(frame(access_rows, ["chromosome", "start", "end"]), {"sample_id": "access"}),
         "tbins": GA(tb[["chromosome", "start", "end", "gene"]].copy(), {"sample_id": "targets"}),
         "tcov": CNA(tcov, dict(meta)),
         "acov": CNA(acov, dict(meta)),
         "ref": CNA(ref, {"sample_id": "reference"}),
         "cnr": CNA(cnr, dict(meta)),
+        "cnr_clean": CNA(cnr_clean, dict(meta)),
         "cns": CNA(cns, dict(meta)),
         "cns_stats": CNA(cns_stats, dict(meta)),
     }
@@ -191,5 +237,6 @@ def gen_world(tape, tier):
         "chroms": names, "chrom_sizes": chrom_sizes, "sample_female": sample_female,
         "n_targets": len(tb), "n_antitargets": len(ab), "n_segments": len(cns),
         "label_ties": sum(1 for r in bait_rows if r[3].count("ref|") > 1),
+        "baits_stranded": "strand" in baits_df.columns, "n_variants": len(vdf), "variants_paired": paired,
     }
     return world, info
